@@ -125,11 +125,57 @@ Example C04_delimiter_needed :
 Proof. vm_compute. split; reflexivity. Qed.
 Print Assumptions C04_delimiter_needed.
 
-(* NOT PROVED (kept visible): the instance of the loading-loop theorem for sequences of numbers,
-     forall items separated by non-empty whitespace, load_many (src_env u) TNUMBER (text items) = Some (values items);
-   the loop lemma (BaseTypesProofs.load_seq) is generic and is instantiated for STRING above; for numbers the
-   per-literal theorems above hold at every position with every delimited continuation, and whitespace is a
-   delimiter (BaseTypesProofs.is_ws_delimited); sequences of numbers are covered by the correspondence runs. *)
+(* ---- sequences through the loading loop, every base type.  A list of values written with whitespace between them
+   (non-empty between two values, arbitrary before the first and after the last) loads through `Model: v*=T;` as
+   exactly those values.  (STRING: C04_string_roundtrip above, where even empty separators are allowed.) *)
+Theorem C04_int_seq : forall u (items : list (Z * list N)) w0,
+  (forall z w, In (z, w) items -> forallb is_ws w = true) -> seps_ok items -> forallb is_ws w0 = true ->
+  load_many (src_env u) TINT (w0 ++ items_text dec_text items) = Some (map (fun it => VInt (fst it)) items).
+Proof. exact int_seq. Qed.
+Print Assumptions C04_int_seq.
+
+(* NUMBER: integers and float literals mixed; each integer comes back as that int, each float literal is handed
+   in full to float() *)
+Theorem C04_number_seq : forall u (items : list (numlit * list N)) w0,
+  (forall n w, In (n, w) items -> numlit_ok n = true /\ forallb is_ws w = true) -> seps_ok items ->
+  forallb is_ws w0 = true ->
+  load_many (src_env u) TNUMBER (w0 ++ items_text numlit_text items)
+  = Some (map (fun it => match fst it with
+                         | NLInt z => VInt z
+                         | NLFloat so m eo => VFloat (float_chars so m eo)
+                         end) items).
+Proof. exact number_seq. Qed.
+Print Assumptions C04_number_seq.
+
+Theorem C04_float_seq : forall u t (items : list (numlit * list N)) w0,
+  t = TFLOAT \/ t = TSTRICTFLOAT ->
+  (forall n w, In (n, w) items -> numlit_ok n = true /\ numlit_is_float n = true /\ forallb is_ws w = true) ->
+  seps_ok items -> forallb is_ws w0 = true ->
+  load_many (src_env u) t (w0 ++ items_text numlit_text items) = Some (map (fun it => VFloat (numlit_text (fst it))) items).
+Proof. exact float_seq. Qed.
+Print Assumptions C04_float_seq.
+
+Theorem C04_bool_seq : forall u (items : list (list N * bool * list N)) w0,
+  (forall sp b w, In (sp, b, w) items -> In (sp, b) bool_spellings /\ forallb is_ws w = true) -> seps_ok items ->
+  forallb is_ws w0 = true ->
+  load_many (src_env u) TBOOL (w0 ++ items_text (fun sb => fst sb) items) = Some (map (fun it => VBool (snd (fst it))) items).
+Proof. exact bool_seq. Qed.
+Print Assumptions C04_bool_seq.
+
+Example C04_seq_nonvacuous :
+  let items := [(NLInt (-12), [32]%N); (NLFloat None (MLead [53]%N) None, [10; 9]%N); (NLInt 7, [])] in
+  seps_ok items /\ forallb (fun it => numlit_ok (fst it)) items = true /\
+  items_text numlit_text items = [45; 49; 50; 32; 46; 53; 10; 9; 55]%N /\
+  load_many (src_env ascii_only) TNUMBER ([32]%N ++ items_text numlit_text items)
+  = Some [VInt (-12); VFloat [46; 53]%N; VInt 7].
+Proof. vm_compute. repeat split; try reflexivity; discriminate. Qed.
+Print Assumptions C04_seq_nonvacuous.
+
+(* the separator hypothesis is needed: "1-2" is two INTs, but "12" written as "1" "2" without a separator is one *)
+Example C04_separator_needed :
+  load_many (src_env ascii_only) TINT (dec_text 1 ++ dec_text 2) = Some [VInt 12].
+Proof. vm_compute. reflexivity. Qed.
+Print Assumptions C04_separator_needed.
 
 (* ---- the engine's fuel is never exhausted: every fuel above lo + |rest| gives the same list of successes
    (so the out-of-fuel value [] of rep_loop plays no role in any match) *)
